@@ -396,6 +396,44 @@ def executeD (db : UniDb) (env : Env) (cmds : Str → Option SigD) (line : Str) 
         | some as => .call name (as ++ dflts)
         | none => .badArg
 
+/-! ### the command table of the correspondence run -/
+
+def ascii (s : String) : Str := s.toList.map Char.toNat
+
+def choiceOpts : List Str := [ascii "a", ascii "b c", ascii "", ascii "'q'"]
+
+/-- the test commands the harness registers on the real `CommandManager` (harness/c45.py `_Cmds`): every signature
+    shape, every convertible parameter type, parameter defaults. The driver executes `executeD … harnessCmds`. -/
+def harnessCmds (name : Str) : Option SigD :=
+  if name = ascii "t.s" then some ⟨[], [], some .str⟩
+  else if name = ascii "t.v" then some ⟨[], [], some .verbatim⟩
+  else if name = ascii "t.one" then some ⟨[.str], [], none⟩
+  else if name = ascii "t.two" then some ⟨[.str, .verbatim], [], none⟩
+  else if name = ascii "t.mix" then some ⟨[.verbatim], [], some .str⟩
+  else if name = ascii "t.none" then some ⟨[], [], none⟩
+  else if name = ascii "t.i" then some ⟨[], [], some .int⟩
+  else if name = ascii "t.b" then some ⟨[], [], some .bool⟩
+  else if name = ascii "t.p" then some ⟨[], [], some .path⟩
+  else if name = ascii "t.ibp" then some ⟨[.int, .bool, .path], [], none⟩
+  else if name = ascii "t.q" then some ⟨[], [], some .strSeq⟩
+  else if name = ascii "t.c" then some ⟨[.cutSpec], [], none⟩
+  else if name = ascii "t.m" then some ⟨[], [], some .marker⟩
+  else if name = ascii "t.ch" then some ⟨[.choice choiceOpts], [], some .str⟩
+  else if name = ascii "t.opts" then some ⟨[], [], none⟩
+  else if name = ascii "t.d" then some ⟨[.str, .str, .int], [.s (ascii "dflt"), .i 7], none⟩
+  else if name = ascii "t.dr" then some ⟨[.verbatim, .bool], [.b true], some .str⟩
+  else none
+
+/-- the str / verbatim commands among them, in the vocabulary of `executeSig` -/
+def harnessSigs (name : Str) : Option Sig :=
+  if name = ascii "t.s" then some ⟨[], some .str⟩
+  else if name = ascii "t.v" then some ⟨[], some .verbatim⟩
+  else if name = ascii "t.one" then some ⟨[.str], none⟩
+  else if name = ascii "t.two" then some ⟨[.str, .verbatim], none⟩
+  else if name = ascii "t.mix" then some ⟨[.verbatim], some .str⟩
+  else if name = ascii "t.none" then some ⟨[], none⟩
+  else none
+
 /-- `execute` from a given parse (the `ParseResult` list `parse_partial` hands out / keeps cached): what the
     command receives is a function of that list alone -/
 def executeToks (db : UniDb) (cmds : Str → Option Sig) (toks : List Str) : Exec :=
